@@ -175,7 +175,10 @@ pub fn parse_statement(
 
         // Check for gather label: (label_name) at the start
         let (gather_label, gather_content) = if gather_content.starts_with('(') {
-            if let Some(end) = gather_content.find(')') {
+            if let Some(end) = gather_content
+                .find(')')
+                .filter(|&end| choice::is_label_name(gather_content[1..end].trim()))
+            {
                 let label = gather_content[1..end].trim().to_owned();
                 let rest = gather_content[end + 1..].trim_start();
                 (Some(label), rest)
